@@ -9,19 +9,19 @@ From LokyV Require Proofs.LedgerThm Model.Ledger Model.Wake Proofs.WakeThm.
 Import ListNotations.
 
 Theorem C01_manager_never_leaves_a_future_unresolved :
-  forall n es, no_resize es = true -> mgr (run es (pool0 n)) = MDone ->
+  forall n es, mgr (run es (pool0 n)) = MDone ->
     pending (run es (pool0 n)) = 0 /\ procs (run es (pool0 n)) = [] /\ closed (run es (pool0 n)) = true.
 Proof. exact manager_gone_means_all_settled. Qed.
 Print Assumptions C01_manager_never_leaves_a_future_unresolved.
 
 Theorem C01_nothing_is_accepted_afterwards :
-  forall n es, no_resize es = true -> let p := run es (pool0 n) in mgr p = MDone -> user p = true ->
+  forall n es, let p := run es (pool0 n) in mgr p = MDone -> user p = true ->
     step p Submit = refuse p.
 Proof. exact after_the_manager_nothing_is_accepted. Qed.
 Print Assumptions C01_nothing_is_accepted_afterwards.
 
 Theorem C01_every_future_is_accounted_for :
-  forall n es, no_resize es = true -> let p := run es (pool0 n) in submitted p = ok p + failB p + failS p + pending p.
+  forall n es, let p := run es (pool0 n) in submitted p = ok p + failB p + failS p + pending p.
 Proof. exact futures_accounted. Qed.
 Print Assumptions C01_every_future_is_accounted_for.
 
